@@ -50,6 +50,7 @@ type state struct {
 	name     string
 	leafKind string // cause class used in signatures
 	hs       bool
+	host     string // MX host name the chain is judged for ("" = mxName)
 	chain    []*x509.Certificate
 	// chainsTo[i] caches: the leaf validly chains (crypto/x509, name, time) to
 	// chain[i] used as the only trust anchor. 0 unknown, 1 yes, 2 no.
@@ -214,8 +215,12 @@ func (w *world) chains(st *state, i int) bool {
 	if st.chainsTo[i] != 0 {
 		return st.chainsTo[i] == 1
 	}
+	host := st.host
+	if host == "" {
+		host = mxName
+	}
 	opts := x509.VerifyOptions{
-		DNSName:       mxName,
+		DNSName:       host,
 		Roots:         x509.NewCertPool(),
 		Intermediates: x509.NewCertPool(),
 		CurrentTime:   w.now,
@@ -605,6 +610,11 @@ func TestVerif(t *testing.T) {
 
 	// Group E: end to end through dns.ExtResolver, the DANE policy and a real remote target.
 	e2eGroup(t, r, w)
+
+	// Groups F, G: the same path under hostile next hops on the refusal path
+	// (QUIT/RSET/NOOP behaviour, second MX, connection reuse, second delivery)
+	// and with two- and three-record sets (e2ex_test.go).
+	e2exGroups(t, r, w)
 
 	// Group C: PRNG-sampled multisets of 2-4 records, each against every state.
 	// Half of the draws are biased towards records with usable parameters so
